@@ -52,7 +52,90 @@ func runC09(c *core.Ctx) core.Meta {
 		},
 		Exempt: map[string]string{},
 	})
-	// ---------------- R09.10 the emulation CU reports every finished work-group ----------------
+	// ---------------- R09.11 each completion message is judged on its own ----------------
+	st11 := c.Rule("R09.11", "a dispatcher decides per message whether a completion message is its own (how many of the message's IDs are in its inflightWGs): in every loop of the dispatching package that takes messages off a port (a loop whose body calls PeekIncoming), no integer other than the loop counter is carried from one iteration to the next. A counter that is declared once before the loop keeps the previous message's matches: after one message of its own the dispatcher takes the next message too, although it belongs to another dispatcher's kernel, frees a location that is not its own and consumes the owner's message", 1)
+	for _, fn := range pd.Funcs {
+		for _, b := range fn.Blocks {
+			// a loop header: a block with a phi and a back edge
+			var backPreds []*ssa.BasicBlock
+			for _, p := range b.Preds {
+				if b.Dominates(p) {
+					backPreds = append(backPreds, p)
+				}
+			}
+			if len(backPreds) == 0 {
+				continue
+			}
+			// the natural loop
+			loop := map[*ssa.BasicBlock]bool{b: true}
+			stack := append([]*ssa.BasicBlock{}, backPreds...)
+			for len(stack) > 0 {
+				x := stack[len(stack)-1]
+				stack = stack[:len(stack)-1]
+				if loop[x] {
+					continue
+				}
+				loop[x] = true
+				stack = append(stack, x.Preds...)
+			}
+			peeks := false
+			for blk := range loop {
+				for _, in := range blk.Instrs {
+					if cc := core.CallOf(in); cc != nil && cc.IsInvoke() && cc.Method.Name() == "PeekIncoming" {
+						peeks = true
+					}
+				}
+			}
+			if !peeks {
+				continue
+			}
+			st11.Instances++
+			c.MarkAnalysed(fn)
+			var carried *ssa.Phi
+			for _, in := range b.Instrs {
+				phi, ok := in.(*ssa.Phi)
+				if !ok {
+					break
+				}
+				bt, isB := phi.Type().Underlying().(*types.Basic)
+				if !isB || bt.Info()&types.IsInteger == 0 {
+					continue
+				}
+				if l := analyseLoop(phi); l != nil && l.why == "" {
+					continue // the loop's own counter
+				}
+				isCounter := false
+				for _, e := range phi.Edges {
+					if add, ok := e.(*ssa.BinOp); ok && add.Op == token.ADD && add.X == ssa.Value(phi) {
+						if k, isC := core.ConstInt(add.Y); isC && k == 1 {
+							// i++ of a `for i := 0; i < N; i++` whose bound is not 64
+							if phi.Referrers() != nil {
+								for _, r := range *phi.Referrers() {
+									if cmp, ok := r.(*ssa.BinOp); ok && cmp.Op == token.LSS && cmp.Block() == b {
+										isCounter = true
+									}
+								}
+							}
+						}
+					}
+				}
+				if isCounter {
+					continue
+				}
+				carried = phi
+			}
+			st11.Ob(carried == nil)
+			st11.Sample("%s: the loop over incoming messages carries no integer besides its counter: %v", core.FuncName(fn), carried == nil)
+			if carried != nil {
+				name := carried.Comment
+				if name == "" {
+					name = carried.Name()
+				}
+				c.ReportAt("R09.11", fn, carried.Pos(), "per-message-state-carried:"+core.FuncName(fn)+":"+name, core.FuncName(fn)+" carries "+name+" from one message of its loop to the next: what the previous message established (how many of its work-groups were this dispatcher's) is applied to the next message, which may belong to another dispatcher's kernel")
+			}
+		}
+	}
+
 	RunProto(c, &ProtoCfg{
 		AllEffectsAfterSend: true,
 		NoProgressRule:      true,
